@@ -36,6 +36,7 @@ DEFAULT_CHARS = {
     12: (SVC_BULB, "0000FE01-0000-1000-8000-0026BB765291", "uint8", ["pw"], None),
     13: (SVC_BULB, "0000FE02-0000-1000-8000-0026BB765291", "uint16", ["pr", "pw", "tw"], 7),
     14: (SVC_BULB, "0000FE03-0000-1000-8000-0026BB765291", "uint32", ["pr"], 99),
+    15: (SVC_BULB, "0000FE04-0000-1000-8000-0026BB765291", "string", ["pr", "pw"], "s"),  # long values: multi-fragment PDUs
     20: (SVC_PAIRING, "0000004C-0000-1000-8000-0026BB765291", "tlv8", ["pr", "pw"], None),
     21: (SVC_PAIRING, CH_PAIR_VERIFY, "tlv8", ["pr", "pw"], None),
     22: (SVC_PAIRING, CH_PAIRINGS, "tlv8", ["pr", "pw"], None),
